@@ -41,7 +41,11 @@ RULE = ("cases = (alphabet, reference string, k, insertion, deletion, substituti
         "symbols (k ≤ 2) and bounds k ∈ {257, 258, 300} with short references: automaton compared exactly with the model, "
         "language judged by the DP on 13 deterministic neighbours of the reference (itself, one symbol dropped / added / "
         "replaced at either end and in the middle) whenever the enumeration bound is below |ref|, and on the random-edit "
-        "words; a case is non-trivial when the reference string is non-empty and 1 ≤ k and k "
+        "words; round 4: the mutable-automata option — under allow_mutable_automata=True ONE NFA per case (as returned, or its "
+        ".copy()) is asked every word up to |ref|+k+1, the neighbours of the reference, random-edit and foreign-symbol words "
+        "TWICE in shuffled orders, with 0–2 other calls in between (determinise, eliminate_lambda, reverse, A/A, == copy, "
+        "stepwise read), each answer judged by the DP; bounded-exhaustive for references ≤2 over {a,b} / {a}, k ≤ 2, 7 flag "
+        "sets; a case is non-trivial when the reference string is non-empty and 1 ≤ k and k "
         "is smaller than the reference length + 2; distinct = distinct argument tuples")
 ASSUMPTIONS = [
     "input_symbols is a set of single characters; the reference string is a str; max_edit_distance is an int",
